@@ -438,7 +438,7 @@ class Verifier(Engine):
         eff = self.effects
         q = self.c.qualname
         lo, hi = node.lineno, getattr(node, "end_lineno", node.lineno)
-        writes, dyn = eff.block_writes(q, lo, hi)
+        writes, dyn = eff.block_writes(q, lo, hi, calls_only=isinstance(node, ast.Call))
         guarded = self.guarded_fields()
         offending = []
         for f, wcls, path, where in writes:
